@@ -36,7 +36,15 @@ func genC06(t *rapid.T) c06Case {
 		v.Body.MarkPolarity(m.Pos)
 	}
 	gr := randomGraph(t, g.atoms, []string{"e0", "e1", "e2"}, 5)
-	return c06Case{Profile: p.ToY().Print(m.YOpts{}), Data: gr.JSONLD(m.LDOpts{}), Procs: rapid.IntRange(0, 3).Draw(t, "procs") == 0}
+	data := gr.JSONLD(m.LDOpts{})
+	if rapid.IntRange(0, 2).Draw(t, "lexical") == 0 {
+		// lexical source maps, possibly with conflicting duplicates (two source maps for one node, two source-information
+		// nodes): whichever wins, it has to be the same one every time
+		sm := genSourceMaps(t, gr)
+		sm.Conflicts = rapid.Bool().Draw(t, "conflicts")
+		data = sm.Attach(gr).JSONLD(genLDOpts(t, 0))
+	}
+	return c06Case{Profile: p.ToY().Print(m.YOpts{}), Data: data, Procs: rapid.IntRange(0, 3).Draw(t, "procs") == 0}
 }
 
 // TestHelperValidate is the body of the fresh-process runs: it validates the
